@@ -23,6 +23,7 @@ import (
 
 	"github.com/nyaruka/gocommon/urns"
 	"github.com/nyaruka/goflow/assets"
+	"github.com/nyaruka/goflow/envs"
 	"github.com/nyaruka/goflow/flows"
 
 	"verifharness/pkg/hx"
@@ -122,25 +123,32 @@ func checkContactDisplay(res *hx.Result, sc *scenario, n *node, path string, red
 func runScenario(sc *scenario, seed uint64, res *hx.Result, em *emitter, allPaths bool) scenarioOutcome {
 	var oc scenarioOutcome
 	var runs [2][2]*sessionRun // [policy: 0 = urns, 1 = none][side]
-	var tplLists [][]string // per observation point, fixed by side A under the policy, reused for side B
 	for pol := 0; pol < 2; pol++ {
+		tplLists := map[int][]string{} // per observation point, fixed by side A, reused for side B
 		for side := 0; side < 2; side++ {
-			var tplsFor func(int, *node) []string
-			if pol == 0 && side == 0 {
-				tplsFor = func(i int, ctx *node) []string {
+			// generated templates are evaluated at the points where the policy in force hides URNs
+			var tplsFor func(int, bool, *node) []string
+			if side == 0 {
+				tplsFor = func(i int, hidden bool, ctx *node) []string {
+					if !hidden {
+						return nil
+					}
 					var l []string
-					if i == 0 || allPaths || thoroughTier || (sc.ID+i)%3 == 0 {
+					if i == 0 || allPaths || thoroughTier || (sc.ID+i)%3 == 0 || sc.hasFlip() {
 						l = templatesFor(ctx, allPaths)
 					} else {
 						l = fixedTemplates // later points of most scenarios: the fixed list only (the walk covers every path)
 					}
-					tplLists = append(tplLists, l)
+					tplLists[i] = l
 					return l
 				}
-			} else if pol == 0 {
-				tplsFor = func(i int, ctx *node) []string {
-					if i < len(tplLists) {
-						return tplLists[i]
+			} else {
+				tplsFor = func(i int, hidden bool, ctx *node) []string {
+					if !hidden {
+						return nil
+					}
+					if l, ok := tplLists[i]; ok {
+						return l
 					}
 					return templatesFor(ctx, allPaths)
 				}
@@ -163,13 +171,23 @@ func runScenario(sc *scenario, seed uint64, res *hx.Result, em *emitter, allPath
 		res.Dist("scenario=divergent-channel")
 	}
 
-	// --- under the policy: twins must be indistinguishable ---
-	a, b := runs[0][0], runs[0][1]
-	if len(a.Obs) != len(b.Obs) {
-		res.Fail("leak:history-length", sc, fmt.Sprintf("twin histories have %d vs %d observation points", len(a.Obs), len(b.Obs)))
+	// --- the policy in force is the one of the environment the caller supplied last ---
+	checkInForce := func(o *observation) {
+		res.OracleChecks++
+		want := envs.RedactionPolicyNone
+		if o.Redact {
+			want = envs.RedactionPolicyURNs
+		}
+		if o.EnvPolicy != want {
+			res.Fail("policy-in-force:not-the-supplied-one:"+string(want), sc, fmt.Sprintf("%s: the last trigger/resume supplied an environment with redaction_policy %q but the session's environment has %q", o.Point, want, o.EnvPolicy))
+		}
+		if o.Flipped && !o.EnvRefreshed {
+			res.Fail("policy-in-force:environment-refreshed-missing:"+string(want), sc, fmt.Sprintf("%s: resume supplied an environment differing in redaction_policy (now %q) but no environment_refreshed event was logged", o.Point, want))
+		}
 	}
-	for i := 0; i < len(a.Obs) && i < len(b.Obs); i++ {
-		oa, ob := a.Obs[i], b.Obs[i]
+
+	// --- under the policy: twins must be indistinguishable ---
+	checkHidden := func(oa, ob *observation, i int) {
 		oc.points++
 		res.OracleChecks++
 		if oa.Status != ob.Status {
@@ -273,25 +291,23 @@ func runScenario(sc *scenario, seed uint64, res *hx.Result, em *emitter, allPath
 			}
 		}
 		if em != nil {
-			em.addContext(sc, oa, 0, true, i)
+			em.addContext(sc, oa, 0, oa.Redact, i)
 			if (sc.ID%4 == 0 && i == 0) || thoroughTier {
-				em.addContext(sc, ob, 1, true, i)
+				em.addContext(sc, ob, 1, ob.Redact, i)
 			}
 		}
 	}
 
 	// --- without the policy: the same expressions do see the URNs ---
-	na, nb := runs[1][0], runs[1][1]
 	hasDifferingURN := false
 	for _, s := range sc.Contact.Slots {
 		if s.A != s.B {
 			hasDifferingURN = true
 		}
 	}
-	for i := 0; i < len(na.Obs) && i < len(nb.Obs); i++ {
-		oa, ob := na.Obs[i], nb.Obs[i]
+	checkVisible := func(oa, ob *observation, i int) {
 		if oa.Ctx == nil || ob.Ctx == nil {
-			continue
+			return
 		}
 		var ds []diff
 		compare(oa.Ctx, ob.Ctx, "", nil, &ds)
@@ -332,8 +348,25 @@ func runScenario(sc *scenario, seed uint64, res *hx.Result, em *emitter, allPath
 				res.Fail("visible-without-policy:twins-indistinguishable", sc, oa.Point+": without the policy the twins' @contact.urns are equal although their URNs differ")
 			}
 		}
-		if em != nil && i == 0 {
-			em.addContext(sc, oa, 0, false, i)
+		if em != nil && (i == 0 || oa.Flipped) {
+			em.addContext(sc, oa, 0, oa.Redact, i)
+		}
+	}
+
+	for pol := 0; pol < 2; pol++ {
+		a, b := runs[pol][0], runs[pol][1]
+		if len(a.Obs) != len(b.Obs) {
+			res.Fail("leak:history-length", sc, fmt.Sprintf("twin histories have %d vs %d observation points", len(a.Obs), len(b.Obs)))
+		}
+		for i := 0; i < len(a.Obs) && i < len(b.Obs); i++ {
+			oa, ob := a.Obs[i], b.Obs[i]
+			checkInForce(oa)
+			checkInForce(ob)
+			if oa.Redact {
+				checkHidden(oa, ob, i)
+			} else {
+				checkVisible(oa, ob, i)
+			}
 		}
 	}
 	return oc
@@ -393,6 +426,12 @@ func main() {
 			res.Dist("contact=nameless")
 		} else {
 			res.Dist("contact=named")
+		}
+		if sc.hasFlip() {
+			res.Dist("policy_switch_on_resume=yes")
+		}
+		if sc.AssetsPolicyOpposite {
+			res.Dist("assets_environment_policy=opposite-of-trigger")
 		}
 		if oc.nontrivial {
 			res.Dist("twins_distinguishable_without_policy=yes")
